@@ -119,12 +119,16 @@ NA_REASON = "not claimed"
 # families added later (kept apart from the base texts above)
 ADDED = {
  "C02": " Also: payloads whose Adler-32 halves sit on their boundary values in the three zlib modes; streams of short-code blocks larger than the 64 KiB staging buffer with input/output ending at every byte near the boundary; the decoder told the window size (hist_bits); and round trips in the documented build variants IGZIP_HIST_SIZE=8192 and LONGER_HUFFTABLE (library and harness rebuilt with the define).",
- "C05": " Later families: every input length with the smallest level buffers (buffer ending at an inaccessible page), level buffers at unaligned addresses, stored tails waiting in the internal buffer behind a pending wrapper header, and the level-3 look-ahead queued behind a pending stored block (two probe runs of the library locate the block length and input position, avail_out is swept around it).",
+ "C01": " Later input classes: constant runs of every length, Adler-32 boundary inputs, mixes of long far-match symbols, alphabets with gaps of exact sizes (zero runs of 3, 10-12, 137-140, 148-150 code lengths), and near-miss far matches (KEY x CONT ... KEY CONT at the first and last distance of every distance code) under the AVX-512, AVX2 and base levels.",
+ "C06": " Later families: mutants of the library's own streams under model-guided schedules, deep incomplete distance sets, one-shot decoding at every output size, the exact 'repeat previous length first' fault, Adler-boundary payloads with every trailer bit flipped.",
+ "C17": " hist_bits is also chosen after the dictionary calls (only the level is documented as needed before them). spec/HashWindow.tla (position arithmetic of the match finders) is model-checked in four variants.",
+ "C18": " The table installation attempted after every call alternates the static and the custom table, and the first call's output room is swept so that the block header is left half written behind a gzip/zlib header.",
+ "C05": " spec/DeflateBuffer.tla (byte budget of the internal buffer when a stored block is admitted) is model-checked with the two repairs as switches. Later families: every input length with the smallest level buffers (buffer ending at an inaccessible page), level buffers at unaligned addresses, stored tails waiting in the internal buffer behind a pending wrapper header, and the level-3 look-ahead queued behind a pending stored block (two probe runs of the library locate the block length and input position, avail_out is swept around it).",
  "C07": " Later families: model-guided schedules (least-visited environment choice from the current state of the TLA+ control machine), packed streams around the 64 KiB staging buffer, long matches and stored blocks resuming at its end, small-then-huge calls.",
  "C08": " Vector counts below the documented minimum, including negative ones, must be refused by every variant.",
  "C09": " The Cauchy recover sweeps are repeated under every simulated CPU level (base, sse, avx, avx2, avx512, avx2+gfni) through the re-assembled resolvers.",
  "C14": " A FULL_FLUSH request that ran out of output space and is kept by every following call makes the marker written for that input position a full-flush point as well (rule D7 for pending requests); the first call's output size is swept around the compressed size learnt from a probe run. spec/FullFlushHistory.tla is the design-level model (repaired design satisfies NoCrossReference; the original and half-repaired ones violate it with the call histories this family replays). FULL_FLUSH beyond 64 KiB in near-window-periodic data.",
- "C15": " Determinism pairs also vary the prior contents of the output buffer (zero / 0xFF / random) over ordinary and long constant-run inputs, one-shot and streaming.",
+ "C15": " Determinism pairs also vary the prior contents of the output buffer (zero / 0xFF / random) over ordinary and long constant-run inputs, one-shot and streaming, and the scratch hash table inside isal_huff_histogram (left by earlier calls, constant fills, 30000 short inputs whose repeated sequence first occurs inside a match).",
  "C16": " Closure rule R2 (PCLMULQDQ => SSE4.1) was dropped: the two bits are architecturally independent (19452 configurations).",
 }
 
